@@ -1346,6 +1346,11 @@ ldb_do_compaction_work(ldb_t *db, ldb_cstate_t *state) {
     ldb_slice_t key, value;
     int drop = 0;
 
+#ifdef LCDB_VERIF
+    /* Verification hook H3: scheduling point before the unlocked flag loads. */
+    lcdb_verif_point(db, 0);
+#endif
+
     /* Prioritize immutable compaction work. */
     if (ldb_atomic_load(&db->has_imm, ldb_order_relaxed)) {
       int64_t imm_start = ldb_now_usec();
@@ -1441,6 +1446,10 @@ ldb_do_compaction_work(ldb_t *db, ldb_cstate_t *state) {
 
     ldb_iter_next(input);
   }
+
+#ifdef LCDB_VERIF
+  lcdb_verif_point(db, 1);
+#endif
 
   if (rc == LDB_OK && ldb_atomic_load(&db->shutting_down, ldb_order_acquire))
     rc = LDB_IOERR; /* "Deleting DB during compaction" */
